@@ -264,13 +264,22 @@ func fixXe(s *h.RLWESpec) {}
 // smudgePools keeps the recomputed per-share noise separately for protocol instances built by the constructor (class 0)
 // and for instances obtained through ShallowCopy (class 1, including copies of copies): the lower bound on the smudging
 // noise is asserted per class, so a copy that lost the flooding distribution cannot hide behind the original's samples.
-type smudgePools struct{ v [2][]*big.Int }
+type smudgePools struct {
+	v   [2][]*big.Int
+	off bool // statistics disabled for this case (the hard bounds are still checked by the caller)
+}
+
+// statsCase selects the cases that pay for the pooled statistics (extra GenShare calls): every second seed.
+func statsCase(seed uint64) bool { return seed%2 == 0 }
 
 func (p *smudgePools) add(cls int, r []*big.Int) { p.v[cls] = append(p.v[cls], r...) }
-func (p *smudgePools) short(cls int) bool        { return len(p.v[cls]) < minSmudgeSamples }
+func (p *smudgePools) short(cls int) bool        { return !p.off && len(p.v[cls]) < minSmudgeSamples }
 
 // check asserts pooled std >= factor*0.8*sigma for both classes.
 func (p *smudgePools) check(sigma, factor float64, key string, rec *h.Rec) error {
+	if p.off {
+		return nil
+	}
 	for cls, v := range p.v {
 		if len(v) == 0 {
 			continue
@@ -285,6 +294,45 @@ func (p *smudgePools) check(sigma, factor float64, key string, rec *h.Rec) error
 		rec.Note("std/sigma:"+name, std/sigma)
 		if std < 0.8*factor*sigma {
 			return h.Failf(k, "pooled std of the share noise produced by %s instances is %.3f < 0.8 * %.3g * requested sigma %g over %d samples", name, std, factor, sigma, len(v))
+		}
+	}
+	return nil
+}
+
+// uniPools collects mask coefficients normalised to [0,1) (value / range), separately for constructor-built and ShallowCopy
+// instances, and asserts first and second moments and the top-bit balance of a uniform distribution: mean within 7
+// standard errors, variance ratio in [0.8, 1.25] (>= 2048 samples), fraction of values in the upper half within 7
+// standard errors of 1/2. want* are the exact moments of the (discrete) uniform distribution the protocol documents.
+type uniPools struct{ v [2][]float64 }
+
+func (p *uniPools) add(cls int, u float64) { p.v[cls] = append(p.v[cls], u) }
+
+func (p *uniPools) check(wantMean, wantVar float64, key string) error {
+	for cls, v := range p.v {
+		if len(v) < minSmudgeSamples {
+			continue
+		}
+		name := "constructor"
+		if cls == 1 {
+			name = "ShallowCopy"
+		}
+		n := float64(len(v))
+		var s, s2, hi float64
+		for _, u := range v {
+			s += u
+			s2 += u * u
+			if u >= wantMean {
+				hi++
+			}
+		}
+		mean := s / n
+		vr := s2/n - mean*mean
+		se := math.Sqrt(wantVar / n)
+		if math.Abs(mean-wantMean) > 7*se || vr < 0.8*wantVar || vr > 1.25*wantVar {
+			return h.Failf(key, "masks of %s instances are not uniform over the documented range: normalised mean %.4f (expected %.4f +- %.4f), variance %.5f (expected %.5f) over %d coefficients", name, mean, wantMean, 7*se, vr, wantVar, len(v))
+		}
+		if wantVar > 0.05 && math.Abs(hi/n-0.5) > 7*0.5/math.Sqrt(n)+1.0/n+0.02 {
+			return h.Failf(key, "masks of %s instances are not uniform over the documented range: %.4f of %d coefficients in the upper half", name, hi/n, len(v))
 		}
 	}
 	return nil
